@@ -17,7 +17,7 @@ def make_case(seed):
     rng = random.Random(seed)
     if seed < 0:
         # done.state family / history family (spin prints a log only when it has an expr)
-        ch, hist = (C.gen_done_chart, C.gen_hist_chart, C.gen_conflict_chart)[seed % 3](-seed, ('const', 1))
+        ch, hist = (C.gen_done_chart, C.gen_hist_chart, C.gen_conflict_chart, C.gen_multiinit_chart)[seed % 4](-seed, ('const', 1))
         ch.data = {}
         hist = hist[:5]
     else:
